@@ -3,6 +3,7 @@ import SE.Driver.Line
 import SE.Driver.Mapper
 import SE.Driver.Pipe
 import SE.Driver.Queue
+import SE.Driver.Relay
 /-
 sedriver: the line-protocol front end of the executable models. One operation per input
 line, one result line per operation. It executes the very definitions the theorems in
@@ -20,6 +21,7 @@ def step (line : String) : String :=
     | "mapper" => mapperCmd args
     | "pipe" => pipeCmd args
     | "queue" => queueCmd args
+    | "relay" => relayCmd args
     | "qjudge" => qjudgeCmd args
     | _ => "bad-op"
 
